@@ -4,6 +4,7 @@ import (
 	"bytes"
 	"crypto/ed25519"
 	"fmt"
+	"sync/atomic"
 	"testing"
 
 	"github.com/aperturerobotics/bifrost/hash"
@@ -96,182 +97,200 @@ func TestC01(t *testing.T) {
 	}
 
 	clone := func(m *peer.SignedMsg) *peer.SignedMsg { return m.CloneVT() }
-	nHonest := 0
-	for ki, k := range keys {
-		for bi, body := range bodies {
-			for ci, ctx := range ctxs {
+	var nHonestA atomic.Int64
+	type combo struct {
+		ki, bi, ci int
+		ht         hash.HashType
+	}
+	var combos []combo
+	for ki := range keys {
+		for bi := range bodies {
+			for ci := range ctxs {
 				for _, ht := range hts {
-					m, err := peer.NewSignedMsg(ctx, k.Priv, ht, body)
-					if err != nil {
-						evid.Fatal("NewSignedMsg: %v", err)
-					}
-					base := fmt.Sprintf("k%d/b%d/c%d/h%d", ki, bi, ci, ht)
-					nHonest++
-					check(tcase{"honest", base, m, ctx, true})
-					if nHonest == 1 {
-						acc.Sample(map[string]any{"group": "honest", "from": m.GetFromPeerId(), "ctx": ctx, "hash_type": int(ht), "body_len": len(body)})
-					}
-					// verifier context deviations
-					for cj, c2 := range ctxs {
-						if cj != ci {
-							check(tcase{"ctx", fmt.Sprintf("%s/verify-ctx%d", base, cj), m, c2, false})
-						}
-					}
-					// sender replaced by another key's ID
-					for kj, k2 := range keys {
-						if kj != ki {
-							x := clone(m)
-							x.FromPeerId = k2.ID.String()
-							check(tcase{"sender", fmt.Sprintf("%s/sender=k%d", base, kj), x, ctx, false})
-							// third key signs, claims k
-							y, _ := peer.NewSignedMsg(ctx, k2.Priv, ht, body)
-							y.FromPeerId = k.ID.String()
-							check(tcase{"foreign-sig", fmt.Sprintf("%s/signed-by=k%d", base, kj), y, ctx, false})
-						}
-					}
-					// same key, other body / hash type signature transplanted
-					for bj, b2 := range bodies {
-						if bj != bi {
-							y, _ := peer.NewSignedMsg(ctx, k.Priv, ht, b2)
-							x := clone(m)
-							x.Signature = y.Signature
-							check(tcase{"sig-other-body", fmt.Sprintf("%s/sig-of-b%d", base, bj), x, ctx, false})
-						}
-					}
-					for _, h2 := range []int32{0, 1, 2, 3, 4, -1, 1<<31 - 1} {
-						if h2 != int32(ht) {
-							x := clone(m)
-							x.Signature.HashType = hash.HashType(h2)
-							check(tcase{"hash-type", fmt.Sprintf("%s/ht=%d", base, h2), x, ctx, false})
-						}
-					}
-					// emptied fields
-					for _, f := range []string{"data", "from", "sig", "sigdata"} {
-						x := clone(m)
-						switch f {
-						case "data":
-							x.Data = nil
-						case "from":
-							x.FromPeerId = ""
-						case "sig":
-							x.Signature = nil
-						case "sigdata":
-							x.Signature.SigData = nil
-						}
-						check(tcase{"empty", base + "/empty-" + f, x, ctx, false})
-					}
-					// the expensive menus only on a sub-grid in quick tier
-					heavy := !run.Quick() || (bi == 0 && ci <= 1 && ht == hash.HashType_HashType_BLAKE3) || (ki == 0 && bi == 1 && ci == 4)
-					if !heavy {
-						continue
-					}
-					enum.BitFlips(m.Signature.SigData, func(mu enum.Mut) {
-						x := clone(m)
-						x.Signature.SigData = mu.Data
-						check(tcase{"sig-bitflip", base + "/" + mu.Desc, x, ctx, false})
-					})
-					enum.BitFlips(body, func(mu enum.Mut) {
-						x := clone(m)
-						x.Data = mu.Data
-						check(tcase{"body-bitflip", base + "/" + mu.Desc, x, ctx, false})
-					})
-					enum.Truncations(m.Signature.SigData, func(mu enum.Mut) {
-						x := clone(m)
-						x.Signature.SigData = mu.Data
-						check(tcase{"sig-trunc", base + "/" + mu.Desc, x, ctx, false})
-					})
-					enum.Extensions(m.Signature.SigData, []byte{0, 1, 0xff}, func(mu enum.Mut) {
-						x := clone(m)
-						x.Signature.SigData = mu.Data
-						check(tcase{"sig-ext", base + "/" + mu.Desc, x, ctx, false})
-					})
-					idb, _ := base58.Decode(m.FromPeerId)
-					vals := []byte{0x00, 0x01, 0x08, 0x12, 0x20, 0x24, 0x7f, 0x80, 0xff}
-					if !run.Quick() {
-						vals = nil
-					}
-					enum.ByteSubst(idb, vals, func(mu enum.Mut) {
-						x := clone(m)
-						x.FromPeerId = base58.Encode(mu.Data)
-						check(tcase{"sender-byte", base + "/" + mu.Desc, x, ctx, false})
-					})
-					enum.ByteSubst([]byte(m.FromPeerId), []byte("0OIl1zZ "), func(mu enum.Mut) {
-						x := clone(m)
-						x.FromPeerId = string(mu.Data)
-						check(tcase{"sender-text", base + "/" + mu.Desc, x, ctx, false})
-					})
-					// embedded pub_key field of the signature object
-					for kj, k2 := range keys {
-						pkb := append([]byte{0x08, 0x01, 0x12, 0x20}, k2.Std.Public().(ed25519.PublicKey)...)
-						x := clone(m)
-						x.Signature.PubKey = pkb
-						check(tcase{"sig-pubkey", fmt.Sprintf("%s/pubkey=k%d", base, kj), x, ctx, false})
-						enum.Truncations(pkb, func(mu enum.Mut) {
-							if len(mu.Data) == 0 {
-								return
-							}
-							z := clone(m)
-							z.Signature.PubKey = mu.Data
-							check(tcase{"sig-pubkey", fmt.Sprintf("%s/pubkey=k%d-%s", base, kj, mu.Desc), z, ctx, false})
-						})
-					}
-					// deviation 2: pairs from the field menu
-					type fm struct {
-						name string
-						f    func(x *peer.SignedMsg)
-					}
-					k2 := keys[(ki+1)%len(keys)]
-					other, _ := peer.NewSignedMsg(ctx, k2.Priv, ht, body)
-					menu := []fm{
-						{"sender=k'", func(x *peer.SignedMsg) { x.FromPeerId = k2.ID.String() }},
-						{"sig=k'", func(x *peer.SignedMsg) { x.Signature = other.Signature.CloneVT() }},
-						{"body^1", func(x *peer.SignedMsg) { x.Data = append([]byte{}, x.Data...); x.Data[0] ^= 1 }},
-						{"ht+1", func(x *peer.SignedMsg) { x.Signature.HashType = x.Signature.HashType%3 + 1 }},
-						{"sig^1", func(x *peer.SignedMsg) {
-							x.Signature.SigData = append([]byte{}, x.Signature.SigData...)
-							x.Signature.SigData[0] ^= 1
-						}},
-					}
-					for i := range menu {
-						for j := range menu {
-							if i == j {
-								continue
-							}
-							x := clone(m)
-							menu[i].f(x)
-							menu[j].f(x)
-							// sender=k' followed by sig=k' is an honest message from k'
-							check(tcase{"pair", fmt.Sprintf("%s/%s+%s", base, menu[i].name, menu[j].name), x, ctx, false})
-						}
-					}
-					// wire level
-					wire, _ := m.MarshalVT()
-					wcheck := func(mu enum.Mut) {
-						x := &peer.SignedMsg{}
-						var uerr error
-						if p := enum.Try(func() { uerr = x.UnmarshalVT(mu.Data) }); p != nil {
-							run.Violation("panic/wire-unmarshal", fmt.Sprintf("UnmarshalVT panicked: %v", p), fmt.Sprintf("%s/%s", base, mu.Desc))
-							return
-						}
-						if uerr != nil {
-							acc.Case("wire", base+"/"+mu.Desc, true, "undecodable")
-							return
-						}
-						check(tcase{"wire", base + "/" + mu.Desc, x, ctx, false})
-					}
-					wvals := []byte{0x00, 0x01, 0x0a, 0x12, 0x7f, 0x80, 0xff}
-					if !run.Quick() {
-						wvals = nil
-					}
-					if bi != 2 || !run.Quick() {
-						enum.ByteSubst(wire, wvals, wcheck)
-						enum.Truncations(wire, wcheck)
-						enum.Extensions(wire, wvals, wcheck)
-					}
+					combos = append(combos, combo{ki, bi, ci, ht})
 				}
 			}
 		}
 	}
+	enum.Par(len(combos), 16, func(n int) {
+		{
+			{
+				{
+					ki, bi, ci, ht := combos[n].ki, combos[n].bi, combos[n].ci, combos[n].ht
+					k, body, ctx := keys[ki], bodies[bi], ctxs[ci]
+					{
+						m, err := peer.NewSignedMsg(ctx, k.Priv, ht, body)
+						if err != nil {
+							evid.Fatal("NewSignedMsg: %v", err)
+						}
+						base := fmt.Sprintf("k%d/b%d/c%d/h%d", ki, bi, ci, ht)
+						check(tcase{"honest", base, m, ctx, true})
+						if nHonestA.Add(1) == 1 {
+							acc.Sample(map[string]any{"group": "honest", "from": m.GetFromPeerId(), "ctx": ctx, "hash_type": int(ht), "body_len": len(body)})
+						}
+						// verifier context deviations
+						for cj, c2 := range ctxs {
+							if cj != ci {
+								check(tcase{"ctx", fmt.Sprintf("%s/verify-ctx%d", base, cj), m, c2, false})
+							}
+						}
+						// sender replaced by another key's ID
+						for kj, k2 := range keys {
+							if kj != ki {
+								x := clone(m)
+								x.FromPeerId = k2.ID.String()
+								check(tcase{"sender", fmt.Sprintf("%s/sender=k%d", base, kj), x, ctx, false})
+								// third key signs, claims k
+								y, _ := peer.NewSignedMsg(ctx, k2.Priv, ht, body)
+								y.FromPeerId = k.ID.String()
+								check(tcase{"foreign-sig", fmt.Sprintf("%s/signed-by=k%d", base, kj), y, ctx, false})
+							}
+						}
+						// same key, other body / hash type signature transplanted
+						for bj, b2 := range bodies {
+							if bj != bi {
+								y, _ := peer.NewSignedMsg(ctx, k.Priv, ht, b2)
+								x := clone(m)
+								x.Signature = y.Signature
+								check(tcase{"sig-other-body", fmt.Sprintf("%s/sig-of-b%d", base, bj), x, ctx, false})
+							}
+						}
+						for _, h2 := range []int32{0, 1, 2, 3, 4, -1, 1<<31 - 1} {
+							if h2 != int32(ht) {
+								x := clone(m)
+								x.Signature.HashType = hash.HashType(h2)
+								check(tcase{"hash-type", fmt.Sprintf("%s/ht=%d", base, h2), x, ctx, false})
+							}
+						}
+						// emptied fields
+						for _, f := range []string{"data", "from", "sig", "sigdata"} {
+							x := clone(m)
+							switch f {
+							case "data":
+								x.Data = nil
+							case "from":
+								x.FromPeerId = ""
+							case "sig":
+								x.Signature = nil
+							case "sigdata":
+								x.Signature.SigData = nil
+							}
+							check(tcase{"empty", base + "/empty-" + f, x, ctx, false})
+						}
+						// the expensive menus only on a sub-grid in quick tier
+						heavy := !run.Quick() || (bi <= 1 && (ci <= 1 || ci == 4)) || (ki == 0 && bi == 2 && ci == 0 && ht == hash.HashType_HashType_BLAKE3)
+						if !heavy {
+							return
+						}
+						enum.BitFlips(m.Signature.SigData, func(mu enum.Mut) {
+							x := clone(m)
+							x.Signature.SigData = mu.Data
+							check(tcase{"sig-bitflip", base + "/" + mu.Desc, x, ctx, false})
+						})
+						enum.BitFlips(body, func(mu enum.Mut) {
+							x := clone(m)
+							x.Data = mu.Data
+							check(tcase{"body-bitflip", base + "/" + mu.Desc, x, ctx, false})
+						})
+						enum.Truncations(m.Signature.SigData, func(mu enum.Mut) {
+							x := clone(m)
+							x.Signature.SigData = mu.Data
+							check(tcase{"sig-trunc", base + "/" + mu.Desc, x, ctx, false})
+						})
+						enum.Extensions(m.Signature.SigData, []byte{0, 1, 0xff}, func(mu enum.Mut) {
+							x := clone(m)
+							x.Signature.SigData = mu.Data
+							check(tcase{"sig-ext", base + "/" + mu.Desc, x, ctx, false})
+						})
+						idb, _ := base58.Decode(m.FromPeerId)
+						vals := []byte{0x00, 0x01, 0x08, 0x12, 0x20, 0x24, 0x7f, 0x80, 0xff}
+						if !run.Quick() {
+							vals = nil
+						}
+						enum.ByteSubst(idb, vals, func(mu enum.Mut) {
+							x := clone(m)
+							x.FromPeerId = base58.Encode(mu.Data)
+							check(tcase{"sender-byte", base + "/" + mu.Desc, x, ctx, false})
+						})
+						enum.ByteSubst([]byte(m.FromPeerId), []byte("0OIl1zZ "), func(mu enum.Mut) {
+							x := clone(m)
+							x.FromPeerId = string(mu.Data)
+							check(tcase{"sender-text", base + "/" + mu.Desc, x, ctx, false})
+						})
+						// embedded pub_key field of the signature object
+						for kj, k2 := range keys {
+							pkb := append([]byte{0x08, 0x01, 0x12, 0x20}, k2.Std.Public().(ed25519.PublicKey)...)
+							x := clone(m)
+							x.Signature.PubKey = pkb
+							check(tcase{"sig-pubkey", fmt.Sprintf("%s/pubkey=k%d", base, kj), x, ctx, false})
+							enum.Truncations(pkb, func(mu enum.Mut) {
+								if len(mu.Data) == 0 {
+									return
+								}
+								z := clone(m)
+								z.Signature.PubKey = mu.Data
+								check(tcase{"sig-pubkey", fmt.Sprintf("%s/pubkey=k%d-%s", base, kj, mu.Desc), z, ctx, false})
+							})
+						}
+						// deviation 2: pairs from the field menu
+						type fm struct {
+							name string
+							f    func(x *peer.SignedMsg)
+						}
+						k2 := keys[(ki+1)%len(keys)]
+						other, _ := peer.NewSignedMsg(ctx, k2.Priv, ht, body)
+						menu := []fm{
+							{"sender=k'", func(x *peer.SignedMsg) { x.FromPeerId = k2.ID.String() }},
+							{"sig=k'", func(x *peer.SignedMsg) { x.Signature = other.Signature.CloneVT() }},
+							{"body^1", func(x *peer.SignedMsg) { x.Data = append([]byte{}, x.Data...); x.Data[0] ^= 1 }},
+							{"ht+1", func(x *peer.SignedMsg) { x.Signature.HashType = x.Signature.HashType%3 + 1 }},
+							{"sig^1", func(x *peer.SignedMsg) {
+								x.Signature.SigData = append([]byte{}, x.Signature.SigData...)
+								x.Signature.SigData[0] ^= 1
+							}},
+						}
+						for i := range menu {
+							for j := range menu {
+								if i == j {
+									continue
+								}
+								x := clone(m)
+								menu[i].f(x)
+								menu[j].f(x)
+								// sender=k' followed by sig=k' is an honest message from k'
+								check(tcase{"pair", fmt.Sprintf("%s/%s+%s", base, menu[i].name, menu[j].name), x, ctx, false})
+							}
+						}
+						// wire level
+						wire, _ := m.MarshalVT()
+						wcheck := func(mu enum.Mut) {
+							x := &peer.SignedMsg{}
+							var uerr error
+							if p := enum.Try(func() { uerr = x.UnmarshalVT(mu.Data) }); p != nil {
+								run.Violation("panic/wire-unmarshal", fmt.Sprintf("UnmarshalVT panicked: %v", p), fmt.Sprintf("%s/%s", base, mu.Desc))
+								return
+							}
+							if uerr != nil {
+								acc.Case("wire", base+"/"+mu.Desc, true, "undecodable")
+								return
+							}
+							check(tcase{"wire", base + "/" + mu.Desc, x, ctx, false})
+						}
+						wvals := []byte{0x00, 0x01, 0x0a, 0x12, 0x7f, 0x80, 0xff}
+						if !run.Quick() {
+							wvals = nil
+						}
+						if bi != 2 || !run.Quick() {
+							enum.ByteSubst(wire, wvals, wcheck)
+							enum.Truncations(wire, wcheck)
+							enum.Extensions(wire, wvals, wcheck)
+						}
+					}
+				}
+			}
+		}
+	})
+	nHonest := int(nHonestA.Load())
 	acc.Sample(map[string]any{"group": "sig-bitflip", "example": "k0/b0/c0/h3/flip[0.0]: signature byte 0 bit 0 flipped, all else honest"})
 	acc.Finish()
 	run.Cov["honest_messages"] = nHonest
